@@ -147,8 +147,12 @@ def _run_case(key, data, cli_mode):
         f = getattr(importlib.import_module(mod), fn)
         try:
             n = 0
-            for _ in f(io.BytesIO(data), f"fuzz.{key}"):
+            for res in f(io.BytesIO(data), f"fuzz.{key}"):
                 n += 1
+                it = getattr(res, "iterate_supported_attachments", None)
+                if it is not None:          # e-mail attachments are part of the failure surface
+                    for _ in it():
+                        n += 1
             return "ok", str(n)
         except ExtractionError as e:
             return "family", type(e).__name__
